@@ -111,6 +111,19 @@ class RefEval:
             from pytato.utils import get_einsum_subscript_str
             sub = get_einsum_specification(n)
             args = [np.asarray(self(a)) for a in n.args]
+            # pytato admits a length-1 axis wherever the index has a longer extent elsewhere — also inside a repeated
+            # index of ONE operand ("ii" on shape (1, 3)), which numpy.einsum rejects: broadcast explicitly first
+            ins = sub.split("->")[0].split(",")
+            ext: dict[str, int] = {}
+            for sp, a in zip(ins, args):
+                for ch, d in zip(sp, a.shape):
+                    ext[ch] = max(ext.get(ch, 0), d) if d != 1 else max(ext.get(ch, 1), ext.get(ch, 1))
+            for sp, a in zip(ins, args):
+                for ch, d in zip(sp, a.shape):
+                    if d != 1:
+                        ext[ch] = d
+            args = [np.broadcast_to(a, tuple(ext[ch] for ch in sp)) if a.shape != tuple(ext[ch] for ch in sp) else a
+                    for sp, a in zip(ins, args)]
             return np.asarray(np.einsum(sub, *args)).astype(n.dtype, copy=False)
         if isinstance(n, CSRMatmul):
             m = n.matrix
